@@ -21,6 +21,7 @@ package transport
 //@   modifies nothing
 //@   ensures [no_user_untouched] result1 == nil && (!wraps ==> result == req)
 //@   ensures [new_request] wraps ==> result != nil && fresh(result) && result.Header != req.Header
+//@   ensures [body_kept] result1 == nil ==> result.Body == old(req.Body) && result.ContentLength == old(req.ContentLength) && result.URL == old(req.URL)
 //@   ensures [input_untouched] mapdom(req.Header) == old(mapdom(req.Header)) && mapval(req.Header) == old(mapval(req.Header))
 //@   ensures [user] wraps ==> ("Impersonate-User" in result.Header) && result.Header["Impersonate-User"] == seq(userName(theUser))
 //@   ensures [groups] wraps ==> (len(userGroups(theUser)) > 0 ==> ("Impersonate-Group" in result.Header) && result.Header["Impersonate-Group"] == userGroups(theUser)) && (len(userGroups(theUser)) == 0 ==> !("Impersonate-Group" in result.Header))
@@ -54,3 +55,31 @@ package transport
 //@ func extraToString props C02
 //@   trusted "log formatting only"
 //@   modifies nothing
+
+// ---- what reaches the next transport ----
+// The impersonating round tripper sends exactly the request WrapRequest built (never the client's own), once, to its delegate.
+//@ func (*dynamicImpersonatingRoundTripper).RoundTrip props C02
+//@   requires [clean_input] req != nil && req.URL != nil && req.Header != nil && (req.Body == nil ==> req.ContentLength == 0) && forall k string :: {k in req.Header} (k in req.Header) ==> !hasPrefix(k, "Impersonate-")
+//@   modifies *
+//@   ensures [sent_once_to_delegate] result1 == nil || roundtrips == old(roundtrips) + 1 ==> roundtrips == old(roundtrips) + 1 && rtby == old(rt.delegate)
+//@   ensures [wrapped_is_sent] roundtrips == old(roundtrips) + 1 && old(wraps) ==> rtlast != req && ("Impersonate-User" in rtlast.Header) && rtlast.Header["Impersonate-User"] == seq(userName(old(theUser)))
+//@   ensures [unwrapped_only_without_user] roundtrips == old(roundtrips) + 1 && !old(wraps) ==> rtlast == req
+
+// The cancelable transport forwards a clone of the request whose context is a child of the request's own context (so
+// whatever cancels the request -- client abort, cluster or endpoint stop -- cancels the upstream call), starts the watcher
+// that cancels it when the transport is closed, and keeps the body (C15, C04).
+//@ func (*CancelableTransport).RoundTrip props C15, C04
+//@   requires [wf] r != nil && ts.inner != nil && (r.Body == nil ==> r.ContentLength == 0)
+//@   modifies *
+//@   ensures [sent_once] roundtrips == old(roundtrips) + 1 && rtby == old(ts.inner)
+//@   ensures [child_of_request_ctx] parentOf(reqCtxOf(rtlast)) == old(reqCtxOf(r))
+//@   ensures [body_kept] rtlast.Body == old(r.Body) && rtlast.ContentLength == old(r.ContentLength)
+//@   ensures [watcher_started] exists f ref :: {f in spawned} (f in spawned) && closureof(f, "(*CancelableTransport).RoundTrip$1") && freevar(f, "(*CancelableTransport).RoundTrip$1", "ts") == ts && freevar(f, "(*CancelableTransport).RoundTrip$1", "reqCtx") == old(reqCtxOf(r)) && freevar(f, "(*CancelableTransport).RoundTrip$1", "cancel") == cancelOf(reqCtxOf(rtlast))
+//@ func (*CancelableTransport).RoundTrip$1 props C15
+//@   modifies *
+//@   ensures [watches_both] selectchan(0) == doneOf(reqCtx) && selectchan(1) == doneOf(ts.ctx)
+//@   ensures [cancels_on_close] selectedcase() == 1 ==> cancelled[cancel]
+//@   ensures [only_then] selectedcase() == 0 ==> cancelled == old(cancelled)
+//@ func (*CancelableTransport).Close props C15
+//@   modifies *
+//@   ensures [cancels] cancelled[old(ts.cancel)]
